@@ -696,7 +696,11 @@ type Known struct {
 // LoadKnown reads /verif/known_findings.jsonl (never written at run time).
 func LoadKnown(verif, property string) map[string]Known {
 	out := map[string]Known{}
-	f, err := os.Open(filepath.Join(verif, "known_findings.jsonl"))
+	path := filepath.Join(verif, "known_findings.jsonl")
+	if k := os.Getenv("VERIF_KNOWN"); k != "" {
+		path = k
+	}
+	f, err := os.Open(path)
 	if err != nil {
 		return out
 	}
